@@ -16,21 +16,21 @@ TDIM = {"interval": 1, "triangle": 2, "quadrilateral": 2, "tetrahedron": 3, "hex
 # "adds exactly the quadrature approximation" must hold for whatever rule the user supplies.
 CUSTOM = {
     "interval": [([[Fr(0)], [Fr(1, 2)], [Fr(1)]], [Fr(1, 6), Fr(2, 3), Fr(1, 6)]),
-                 ([[Fr(1, 4)], [Fr(2, 3)]], [Fr(2, 5), Fr(3, 5)])],
+                 ([[Fr(1, 4)], [Fr(5, 8)]], [Fr(3, 8), Fr(1, 2)])],
     "triangle": [([[Fr(1, 6), Fr(1, 6)], [Fr(2, 3), Fr(1, 6)], [Fr(1, 6), Fr(2, 3)]], [Fr(1, 6)] * 3),
                  ([[Fr(1, 2), Fr(0)], [Fr(1, 2), Fr(1, 2)], [Fr(0), Fr(1, 2)]], [Fr(1, 6)] * 3),
-                 ([[Fr(1, 4), Fr(1, 2)], [Fr(1, 3), Fr(1, 5)]], [Fr(1, 3), Fr(1, 7)]),
+                 ([[Fr(1, 4), Fr(1, 2)], [Fr(1, 2), Fr(1, 8)]], [Fr(1, 4), Fr(1, 8)]),
                  ([[Fr(1, 3), Fr(1, 3)], [Fr(1, 5), Fr(1, 5)], [Fr(3, 5), Fr(1, 5)], [Fr(1, 5), Fr(3, 5)]],
                   [Fr(-27, 96), Fr(25, 96), Fr(25, 96), Fr(25, 96)])],
     "quadrilateral": [([[x, y] for x in (Fr(0), Fr(1, 2), Fr(1)) for y in (Fr(0), Fr(1, 2), Fr(1))],
                        [a * b for a in (Fr(1, 6), Fr(2, 3), Fr(1, 6)) for b in (Fr(1, 6), Fr(2, 3), Fr(1, 6))]),
-                      ([[Fr(1, 4), Fr(1, 2)], [Fr(2, 3), Fr(1, 5)], [Fr(1, 2), Fr(3, 4)]], [Fr(1, 3), Fr(1, 2), Fr(1, 7)])],
+                      ([[Fr(1, 4), Fr(1, 2)], [Fr(3, 4), Fr(1, 4)], [Fr(1, 2), Fr(3, 4)]], [Fr(1, 4), Fr(1, 2), Fr(1, 8)])],
     "tetrahedron": [([[Fr(1, 4)] * 3, [Fr(1, 6), Fr(1, 6), Fr(1, 6)], [Fr(1, 2), Fr(1, 6), Fr(1, 6)],
                       [Fr(1, 6), Fr(1, 2), Fr(1, 6)], [Fr(1, 6), Fr(1, 6), Fr(1, 2)]],
                      [Fr(-2, 15), Fr(3, 40), Fr(3, 40), Fr(3, 40), Fr(3, 40)]),
-                    ([[Fr(1, 4), Fr(1, 4), Fr(1, 3)], [Fr(1, 5), Fr(1, 2), Fr(1, 10)]], [Fr(1, 5), Fr(1, 9)])],
+                    ([[Fr(1, 4), Fr(1, 4), Fr(1, 4)], [Fr(1, 8), Fr(1, 2), Fr(1, 4)]], [Fr(1, 8), Fr(1, 16)])],
     "hexahedron": [([[x, y, z] for x in (Fr(0), Fr(1)) for y in (Fr(0), Fr(1)) for z in (Fr(1, 2),)], [Fr(1, 4)] * 4),
-                   ([[Fr(1, 4), Fr(1, 2), Fr(1, 3)], [Fr(2, 3), Fr(1, 5), Fr(1, 2)]], [Fr(1, 3), Fr(1, 2)])],
+                   ([[Fr(1, 4), Fr(1, 2), Fr(1, 2)], [Fr(1, 2), Fr(1, 4), Fr(3, 4)]], [Fr(1, 4), Fr(1, 2)])],
     "vertex": [([[]], [Fr(1)])],
 }
 
@@ -154,8 +154,8 @@ def realise(case, seed=0):
         form = ufl.derivative(F**2 * v * dX, F, u)
     elif term == "cond":
         F, G = ufl.Coefficient(V), coef("P1")
-        c1 = conditional(ufl.lt(F, 0), 2, 0.5)
-        c2 = conditional(ufl.And(ufl.gt(x[0], 0), ufl.Not(ufl.le(G, 1))), u * v, 3 * u * v)
+        c1 = conditional(ufl.lt(F, 0.5), 2, 0.5)
+        c2 = conditional(ufl.And(ufl.gt(x[0], 0.25), ufl.Not(ufl.le(G, 1.5))), u * v, 3 * u * v)
         form = (c1 * u * v + c2) * dX
     elif term == "absmax":
         F, G = ufl.Coefficient(V), coef("P1")
